@@ -132,60 +132,113 @@ package queue
 //@     invariant 0 <= iter() && iter() <= n
 //@     invariant forall(j, 0, iter(), q.items[j].GetId() != id)
 
-// ---- public operations: one atomic application of the inner operation under q.m ----
+// ---- public operations: one atomic application of the list operation under q.m ----
+// `opt old=cs`: old() is the state found when q.m was acquired (linearisation at the lock).
 
 //@ func (*TaskQueue).AddFirst
 //@   prop C05
+//@   opt old=cs
 //@   requires t != nil
 //@   modifies q.items, q.measureActionFn
+//@   ensures [len]   len(q.items) == len(old(q.items)) + 1
+//@   ensures [head]  q.items[0] == t
+//@   ensures [rest]  forall(j, 1, len(q.items), q.items[j] == old(q.items)[j-1])
 
 //@ func (*TaskQueue).AddLast
 //@   prop C05
+//@   opt old=cs
 //@   requires t != nil
 //@   modifies q.items, q.measureActionFn, allelems(task.Task)
+//@   ensures [len]   len(q.items) == len(old(q.items)) + 1
+//@   ensures [tail]  q.items[len(q.items)-1] == t
+//@   ensures [rest]  forall(j, 0, len(old(q.items)), q.items[j] == old(q.items)[j])
 
 //@ func (*TaskQueue).AddAfter
 //@   prop C05
+//@   opt old=cs
 //@   requires newTask != nil
 //@   modifies q.items, q.measureActionFn
+//@   let k := old(firstIdx(q.items, id))
+//@   let n := old(len(q.items))
+//@   ensures [found]  k >= 0 ==> len(q.items) == n + 1 && forall(j, 0, k+1, q.items[j] == old(q.items)[j])
+//@        && q.items[k+1] == newTask && forall(j, k+2, n+1, q.items[j] == old(q.items)[j-1])
+//@   ensures [absent] k < 0 ==> sameseq(q.items, old(q.items))
 
 //@ func (*TaskQueue).AddBefore
 //@   prop C05
+//@   opt old=cs
 //@   requires newTask != nil
 //@   modifies q.items, q.measureActionFn
+//@   let k := old(firstIdx(q.items, id))
+//@   let n := old(len(q.items))
+//@   ensures [found]  k >= 0 ==> len(q.items) == n + 1 && forall(j, 0, k, q.items[j] == old(q.items)[j])
+//@        && q.items[k] == newTask && forall(j, k+1, n+1, q.items[j] == old(q.items)[j-1])
+//@   ensures [absent] k < 0 ==> sameseq(q.items, old(q.items))
 
 //@ func (*TaskQueue).RemoveFirst
 //@   prop C05
+//@   opt old=cs
 //@   modifies q.items, q.measureActionFn
+//@   let n := old(len(q.items))
+//@   ensures [empty] n == 0 ==> result == nil && len(q.items) == 0
+//@   ensures [head]  n > 0 ==> result == old(q.items[0]) && len(q.items) == n - 1
+//@   ensures [rest]  n > 0 ==> forall(j, 0, n-1, q.items[j] == old(q.items)[j+1])
 
 //@ func (*TaskQueue).RemoveLast
 //@   prop C05
+//@   opt old=cs
 //@   modifies q.items, q.measureActionFn
+//@   let n := old(len(q.items))
+//@   ensures [empty] n == 0 ==> result == nil && len(q.items) == 0
+//@   ensures [last]  n > 0 ==> result == old(q.items[len(q.items)-1]) && len(q.items) == n - 1
+//@   ensures [rest]  n > 0 ==> forall(j, 0, n-1, q.items[j] == old(q.items)[j])
 
 //@ func (*TaskQueue).Remove
 //@   prop C05
+//@   opt old=cs
 //@   modifies q.items, q.measureActionFn, allelems(task.Task)
+//@   let k := old(firstIdx(q.items, id))
+//@   let n := old(len(q.items))
+//@   ensures [absent] k < 0 ==> result == nil && sameseq(q.items, old(q.items))
+//@   ensures [found]  k >= 0 ==> result == old(q.items[k]) && len(q.items) == n - 1
+//@        && forall(j, 0, k, q.items[j] == old(q.items)[j]) && forall(j, k, n-1, q.items[j] == old(q.items)[j+1])
 
 //@ func (*TaskQueue).Get
 //@   prop C05
+//@   opt old=cs
 //@   modifies q.items, q.measureActionFn
+//@   let k := old(firstIdx(q.items, id))
+//@   ensures [absent] k < 0 ==> result == nil
+//@   ensures [found]  k >= 0 ==> result == old(q.items[k])
+//@   ensures [frame]  sameseq(q.items, old(q.items))
 
 //@ func (*TaskQueue).GetFirst
-//@   prop C05
+//@   prop C05, C03
+//@   opt old=cs
 //@   modifies q.items, q.measureActionFn
+//@   ensures [head]  result == ite(old(len(q.items)) == 0, nil, old(q.items[0]))
+//@   ensures [frame] sameseq(q.items, old(q.items))
 
 //@ func (*TaskQueue).GetLast
 //@   prop C05
+//@   opt old=cs
 //@   modifies q.items, q.measureActionFn
+//@   ensures [last]  result == ite(old(len(q.items)) == 0, nil, old(q.items[len(q.items)-1]))
+//@   ensures [frame] sameseq(q.items, old(q.items))
 
 //@ func (*TaskQueue).Length
 //@   prop C05
+//@   opt old=cs
 //@   modifies q.items, q.measureActionFn
-//@   ensures result >= 0
+//@   ensures [len]   result == old(len(q.items)) && result >= 0
+//@   ensures [frame] sameseq(q.items, old(q.items))
 
 //@ func (*TaskQueue).IsEmpty
-//@   prop C05
+//@   prop C05, C03
+//@   opt old=cs
 //@   modifies q.items, q.measureActionFn
+//@   ensures [empty] result == (old(len(q.items)) == 0)
+//@   ensures [frame] sameseq(q.items, old(q.items))
 
 // number of tasks among s[0..i) accepted by f
 //@ specfn kept(s []task.Task, f func(task.Task) bool, i int) int
@@ -210,4 +263,8 @@ package queue
 
 //@ func (*TaskQueue).Filter
 //@   prop C05
+//@   opt old=cs
 //@   modifies q.items, q.measureActionFn
+//@   let n := old(len(q.items))
+//@   ensures [len]   filterFn != nil ==> len(q.items) == old(kept(q.items, filterFn, len(q.items)))
+//@   ensures [elems] filterFn != nil ==> forall(j, 0, n, old(filterFn(q.items[j])) ==> q.items[old(kept(q.items, filterFn, j))] == old(q.items[j]))
